@@ -170,6 +170,7 @@ def run(ctx):
     res.rule("SIB", "datum and redeemer converters accept the same expression variants and share the constructor function")
     res.rule("ORDER", "constructor index = case position; fields in declaration order")
     res.rule("PANIC", "no undischarged panic site in the data-encoding closure")
+    res.rule("INT", "no lossy integer cast in the data-encoding closure")
     i_constr(F, res)
     sib(F, res)
     order(F, res)
@@ -177,6 +178,18 @@ def run(ctx):
     roots = ["tx3_cardano::compile::compile_data_expr", "tx3_cardano::compile::compile_struct",
              "<%s as %sTryIntoData>::try_as_data" % (EXPR, P)]
     rows = table("e1_rows").get("C09", [])
-    c12.panic_obligations(F, res, roots, rows, cg=cg)
+    reach, _ = c12.panic_obligations(F, res, roots, rows, cg=cg)
     res.floor("functions in closure", res.analysed.get("functions in closure", 0), 10)
+    # integers are encoded exactly: no lossy integer cast inside the data-encoding closure (an `as` between widths or
+    # signedness maps e.g. 2^63 ..= 2^64-1 to negative numbers)
+    from . import c02
+    r2 = Result("C09")
+    c02.casts(F, r2, {p for p in reach if p in F.fns and F.fns[p]["crate"] == "tx3_cardano"})
+    n = 0
+    for o in r2.obs:
+        n += 1
+        o.rule = "INT"
+        res.add([o])
+    if not n:
+        res.add([ok("INT", "data-encoding closure|no lossy integer cast", "crates/tx3-cardano/src/compile/plutus_data.rs", "no IntToInt cast whose target range does not contain its source range among %d functions" % len(reach))])
     return res
